@@ -2,8 +2,10 @@
      t4_geom_convert/Kernel/FileHandlers/Parser/ParseMCNPCell.py
        parse_all_cells / parse_one_cell (LIKE_RE loop) / apply_but     [resolve_like, parse_all]
        parse_one_cell_worker (option normalisation, defaults, overrides) [tokenize, worker]
-       parse_material, parse_keywords (substring dispatch in the code's
-       order), parse_fill_kw, parse_lat_kw, parse_trcl_kw, to_fillid     [step, parse_kws, ...]
+       parse_material, parse_keywords (dispatch in the code's order:
+       startswith 'imp', 'fill' in, 'lat' in, 'trcl' in, == 'u', 'rho' in,
+       'mat' in; importance kept per particle), parse_fill_kw,
+       parse_lat_kw, parse_trcl_kw, to_fillid                            [step, parse_kws, ...]
      MIP/mip/cellcard.py split, LIKE branch (re_likebut)                 [split_like]
    What the code calls but this property does not own is a field of [env]
    (Python float()/int(float())/round(float()) of a token, the TR-card table,
@@ -189,6 +191,16 @@ Fixpoint search_like (s : string) : option Z :=
   | None => match s with EmptyString => None | String _ r => search_like r end
   end.
 
+(* elt[3:].lstrip(':').split(','): the particles of an IMP keyword *)
+Fixpoint lstrip_colon (s : string) : string :=
+  match s with
+  | String ":" r => lstrip_colon r
+  | _ => s
+  end.
+
+Definition imp_particles (elt : string) : list string :=
+  split_char "," (lstrip_colon (sdrop 3 elt)).
+
 (* ------------------------------------------------------------ the parser *)
 Section Model.
   Context {T : Type} (SC : Scalar T).
@@ -209,7 +221,7 @@ Section Model.
 
   (* the defaultdict of parse_keywords *)
   Record kws := mkKws {
-    k_imp : option T;
+    k_impl : list (string * T);   (* every IMP entry read so far: (particle, value), in order *)
     k_fb : option (list (Z * Z));
     k_fu : option funiv;
     k_fp : option (list T);
@@ -220,7 +232,7 @@ Section Model.
     k_mat : option string
   }.
 
-  Definition kempty : kws := mkKws None None None None None None None None None.
+  Definition kempty : kws := mkKws [] None None None None None None None None.
 
   (* Python max(a, b): a unless b > a *)
   Definition pmax (a b : T) : T := if sltb SC a b then b else a.
@@ -228,15 +240,31 @@ Section Model.
   Definition orelse {A} (a b : option A) : option A :=
     match a with Some _ => a | None => b end.
 
+  (* imp_by_particle: a dict in insertion order; assigning to a particle that
+     is already there keeps its place *)
+  Fixpoint set1 (l : list (string * T)) (p : string) (v : T) : list (string * T) :=
+    match l with
+    | [] => [(p, v)]
+    | (q, w) :: r => if String.eqb q p then (q, v) :: r else (q, w) :: set1 r p v
+    end.
+
+  Definition imp_dict (log : list (string * T)) : list (string * T) :=
+    fold_left (fun acc pv => set1 acc (fst pv) (snd pv)) log [].
+
+  (* keywords['importance'] = max(imp_by_particle.values()); None without IMP *)
+  Definition imp_value (log : list (string * T)) : option T :=
+    match map snd (imp_dict log) with
+    | [] => None
+    | v :: r => Some (fold_left pmax r v)
+    end.
+
   (* effect on the dictionary [st] of one keyword group whose own content is
-     [d]: importance combined by max(new, old), the three fill entries written
-     together, every other entry overwritten *)
+     [d]: the IMP entries are appended (a later entry replaces an earlier one
+     for the same particle, see imp_dict), the three fill entries are written
+     together, every other entry is overwritten *)
   Definition upd (st d : kws) : kws :=
     mkKws
-      (match k_imp d with
-       | Some v => Some (match k_imp st with Some o => pmax v o | None => v end)
-       | None => k_imp st
-       end)
+      (k_impl st ++ k_impl d)%list
       (match k_fu d with Some _ => k_fb d | None => k_fb st end)
       (match k_fu d with Some _ => k_fu d | None => k_fu st end)
       (match k_fu d with Some _ => k_fp d | None => k_fp st end)
@@ -316,7 +344,7 @@ Section Model.
     end.
 
   Definition d_fill fb fu fp : kws :=
-    mkKws None fb (Some fu) (Some fp) None None None None None.
+    mkKws [] fb (Some fu) (Some fp) None None None None None.
 
   Definition parse_fill (e : env) (elt : string) (rest : list string)
     : res (kws * list string) :=
@@ -350,7 +378,7 @@ Section Model.
     | v :: r => match pyint v with
                 | None => Err EParse
                 | Some n => if (n =? 1)%Z || (n =? 2)%Z
-                            then Ok (mkKws None None None None (Some n) None None None None, r)
+                            then Ok (mkKws [] None None None (Some n) None None None None, r)
                             else Err EParse
                 end
     end.
@@ -362,7 +390,7 @@ Section Model.
     | None => Err EValue
     | Some vals =>
         fill_params e elt ps vals >>= fun v =>
-        Ok (mkKws None None None None None (Some v) None None None, r)
+        Ok (mkKws [] None None None None (Some v) None None None, r)
     end.
 
   (* one iteration of the while loop of parse_keywords: the content of the
@@ -373,29 +401,30 @@ Section Model.
       | [] => Err EIndex
       | v :: r => match pyfloat e v with
                   | None => Err EValue
-                  | Some x => Ok (mkKws (Some x) None None None None None None None None, r)
+                  | Some x => Ok (mkKws (map (fun p => (p, x)) (imp_particles elt))
+                                        None None None None None None None None, r)
                   end
       end
     else if has "fill" elt then parse_fill e elt rest
     else if has "lat" elt then parse_lat rest
     else if has "trcl" elt then parse_trcl e elt rest
-    else if has "u" elt then
+    else if String.eqb elt "u" then
       match rest with
       | [] => Err EIndex
       | v :: r => match pytrunc e v with
                   | None => Err EValue
-                  | Some n => Ok (mkKws None None None None None None (Some (Z.abs n)) None None, r)
+                  | Some n => Ok (mkKws [] None None None None None (Some (Z.abs n)) None None, r)
                   end
       end
     else if has "rho" elt then
       match rest with
       | [] => Err EIndex
-      | v :: r => Ok (mkKws None None None None None None None (Some v) None, r)
+      | v :: r => Ok (mkKws [] None None None None None None (Some v) None, r)
       end
     else if has "mat" elt then
       match rest with
       | [] => Err EIndex
-      | v :: r => Ok (mkKws None None None None None None None None (Some v), r)
+      | v :: r => Ok (mkKws [] None None None None None None None (Some v), r)
       end
     else Ok (kempty, rest).
 
@@ -481,7 +510,7 @@ Section Model.
      keyword dictionary *)
   Definition finish_cell (e : env) (rank : nat) (lat_opt : option (list (Z * Z)))
              (mid : string) (rho : option string) (ast : string) (k : kws) : res cell :=
-    (match k_imp k with
+    (match imp_value (k_impl k) with
      | Some v => Ok v
      | None => match nth_error (imps e) rank with Some v => Ok v | None => Err EParse end
      end) >>= fun imp =>
